@@ -146,9 +146,16 @@ def _unify_comp(a, b):
 
 
 def _views(key):
+    """readings of an address: a full-slice level leaves no trace in the library object, so it may be
+    read at any position or not at all (C['a', :, 'b'].set(v) == C[:, 'a', 'b'].set(v) == C['a','b'].set(v))."""
     yield key
     if any(c is SL for c in key):
-        yield tuple(c for c in key if c is not SL)
+        bare = tuple(c for c in key if c is not SL)
+        yield bare
+        for pos in range(len(bare) + 1):
+            k = bare[:pos] + (SL,) + bare[pos:]
+            if k != key:
+                yield k
 
 
 def _prefix_conflict(e1, e2):
@@ -175,6 +182,20 @@ def _shape_clash(e1, e2):
 
 def match(e: Entry, probe):
     """None (statically no relation) or dict(kind=exact|prefix, value, valid, unspec)."""
+    m = _match_positional(e, probe)
+    if m is None and any(c is SL for c in e.key):
+        # The library cannot tell C['a', :, 'b'].set(v) from C[:, 'a', 'b'].set(v) (same object): an int
+        # probed at another place than the slice level may legitimately consume the slice axis.
+        bare = Entry(tuple(c for c in e.key if c is not SL), e.value, e.valid, e.dyn, e.rt)
+        for q, p in enumerate(probe):
+            if not isinstance(p, str):
+                m2 = _match_positional(bare, probe[:q] + probe[q + 1:])
+                if m2 is not None:
+                    return dict(kind=m2["kind"], value=None, valid=np.bool_(False), unspec=True)
+    return m
+
+
+def _match_positional(e: Entry, probe):
     val, ok = e.value, e.valid
     i = 0
     unspec = False
@@ -552,6 +573,10 @@ def _ref_at_entry(addrname, alloc):
     raise KeyError(addrname)
 
 
+def _runtime_flagged(entries):
+    return [Entry(e.key, e.value, e.valid, True, True) for e in entries]
+
+
 def build_ref(t, alloc) -> Ref:
     k = t[0]
     if k == "leaf":
@@ -568,7 +593,10 @@ def build_ref(t, alloc) -> Ref:
     if k == "at_set":
         inner = build_ref(t[2], alloc)
         new = _ref_at_entry(t[1], alloc)
-        return inner.with_entries(new + inner.entries)  # the new entry takes priority
+        es = new + inner.entries  # the new entry takes priority
+        if has_dyn_switch(t[2]):
+            es = _runtime_flagged(es)
+        return inner.with_entries(es)
     if k == "mask":
         inner = build_ref(t[2], alloc)
         kind, flag = t[1]
@@ -589,7 +617,10 @@ def build_ref(t, alloc) -> Ref:
     if k == "or":
         r1 = build_ref(t[2], alloc)
         r2 = build_ref(t[3], alloc)
-        r = r1.with_entries(r1.entries + r2.entries, r2)
+        es = r1.entries + r2.entries
+        if has_dyn_switch(t[2]) or has_dyn_switch(t[3]):
+            es = _runtime_flagged(es)  # `|` with a runtime switch is pushed into its branches
+        r = r1.with_entries(es, r2)
         if has_dyn_switch(t[2]) and has_dyn_switch(t[3]):
             r.marks.add("two_switches")
         return r
@@ -1030,8 +1061,10 @@ def check_eager(ctx, t, tier):
     # --- documented static facts
     ck.n += 1
     try:
-        if t[0] == "mask" and t[1] == ("c", False) and not ref.entries and not chm.static_is_empty():
-            # (a leaf that already carries a runtime flag may survive as Mask(v, False-array))
+        if t[0] == "mask" and t[1] == ("c", False) and not ref.entries and not has_dyn_switch(t) \
+                and not chm.static_is_empty():
+            # (a leaf that already carries a runtime flag may survive as Mask(v, False-array), a runtime
+            #  switch as a switch of empty maps)
             ck.fail("static_is_empty", "mask_false_not_empty")
         if t == ("leaf", "empty") and not chm.static_is_empty():
             ck.fail("static_is_empty", "empty_not_empty")
@@ -1242,7 +1275,7 @@ def _run_chunk(terms, tier, seed, first_index):
             ck = check_eager(ctx, t, tier)
             ctx.note("terms")
             ctx.note("terms_" + pool)
-            if ck is not None and j < 2:
+            if ck is not None and ck.hits > 0 and len(ck.ref.entries) >= 2:
                 ctx.sample(dict(term=term_str(t), model=[
                     dict(address=[repr(c) if not isinstance(c, (str, int)) else c for c in e.key],
                          value=e.value, valid=e.valid) for e in build_ref(t, make_alloc()).entries]))
